@@ -1,5 +1,5 @@
 (** C05 — any alteration of the encrypted stream is detected. *)
-From HC Require Import Base.HBytes Base.ChaChaPoly Base.ChaChaPolyProofs Gen.Extracted Model.Framing Model.ConnRead Proofs.FramingProofs Proofs.ConnReadProofs Proofs.ConnAdvProofs Model.Pipeline Proofs.PipelineProofs Model.PlainFrame Proofs.PlainFrameProofs.
+From HC Require Import Base.HBytes Base.ChaChaPoly Base.ChaChaPolyProofs Gen.Extracted Model.Framing Model.ConnRead Proofs.FramingProofs Proofs.ConnReadProofs Proofs.ConnAdvProofs Model.Pipeline Proofs.PipelineProofs Model.PlainFrame Proofs.PlainFrameProofs Model.PlainRead Proofs.PlainReadProofs.
 
 (** For ANY AEAD with open(seal p) = p, any key, any start counter, any plaintext chunks [ps]
     the peer sealed, and ANY byte string [r] arriving instead of the peer's stream (bit flips,
@@ -199,3 +199,39 @@ Theorem C05_plain_reads_stay_inside_their_messages : forall msgs reads,
   all_inside pst0 (stream_of msgs) (orc_of msgs) reads.
 Proof. exact reads_stay_inside_from_the_start. Qed.
 Print Assumptions C05_plain_reads_stay_inside_their_messages.
+
+(** The plain text phase of hap.Connection.Read with the HTTP layer above it (Model/PlainRead.v, run against the real
+    hap.Connection event by event): bytes arrive, the HTTP layer reads, a pair-verify handler accepts at ANY moment,
+    responses end.  For EVERY byte stream, every answer of ReadRequest and every such schedule: nothing is lost,
+    duplicated or reordered on the way into the secure session — what came from the network is, in order, what was
+    handed over in plain text, then what is kept as the beginning of the encrypted stream, then what is buffered, then
+    what has not been read ... *)
+Theorem C05_switch_every_byte_accounted_for : forall stream orc evs,
+  let w := wrun stream orc evs in
+  c_closed (w_c w) = false -> accounted w = stream.
+Proof. exact every_byte_accounted_for. Qed.
+Print Assumptions C05_switch_every_byte_accounted_for.
+
+(** ... once a pair-verify handler has accepted (the secure session is pending or in use) nothing is handed over in
+    plain text any more, whatever arrives and whatever else happens ... *)
+Theorem C05_switch_no_plain_text_after_the_finish : forall w evs, secure (w_c w) = true ->
+  w_delivered (fold_left wstep evs w) = w_delivered w.
+Proof. exact no_plain_text_after_the_finish. Qed.
+Print Assumptions C05_switch_no_plain_text_after_the_finish.
+
+(** ... and while a request is being handled and all of it has been handed over, no byte of what follows it is handed
+    over — not to the byte net/http reads ahead in the background either — until the response is written: at the
+    moment the handler of a pair-verify finish accepts, the HTTP layer holds nothing behind that request. *)
+Theorem C05_switch_nothing_handed_over_while_handling : forall w evs,
+  Forall (fun e => e <> EDone) evs -> handling (w_c w) = true ->
+  w_delivered (fold_left wstep evs w) = w_delivered w.
+Proof. exact nothing_handed_over_while_handling. Qed.
+Print Assumptions C05_switch_nothing_handed_over_while_handling.
+
+(** non-vacuity: a request with a body, the handler accepts, a plain text request behind it arrives in the same
+    segment: it is never handed over, it is the beginning of the encrypted stream *)
+Example C05_switch_example :
+  let req := [80; 32; 47; 10; 10; 1; 2] in let behind := [71; 32; 47; 10; 10] in
+  let w := wrun (req ++ behind) [CL 2] [EArrive 100; ERead 4096; ERead 4096; ERead 1; EVerify; ERead 4096; ERead 4096] in
+  w_delivered w = req /\ c_received (w_c w) = behind /\ handling (w_c (wrun (req ++ behind) [CL 2] [EArrive 100; ERead 4096; ERead 4096])) = true.
+Proof. vm_compute. auto. Qed.
